@@ -1,7 +1,7 @@
 # C07 — each layer is served as a correct overlayfs lower directory of the OCI layer
 PROPS["C07"] = dict(
     props_file="Properties/C07.v",
-    harnesses=[dict(cmd="node", mod="cmdmod", model="Model.Node", quick=700, thorough=30000, shard=120,
+    harnesses=[dict(cmd="node", mod="cmdmod", model="Model.Node", quick=500, thorough=30000, shard=120,
                     preamble="Local Open Scope Z_scope. Local Open Scope string_scope.",
                     require=["store.memory", "store.db", "opaque.0", "opaque.1", "opaque.2", "node.root", "node.sub",
                              "op.readdir", "op.lookup", "op.forget", "op.getattr", "op.getxattr", "op.listxattr", "op.state",
